@@ -129,6 +129,13 @@ func c04Specs(tier string, seed int) []c04Spec {
 					s.Sent = []string{iso(y, 12, 31) + ":" + col, iso(y+2, 1, 1) + ":" + col}
 				})
 			}
+			// a two-day hole in one optional column next to an isolated hole in the other one on the same day (the two-day hole
+			// cannot be filled and is not judged; the isolated one must still become the mean of its neighbours)
+			with(func(s *c04Spec) {
+				s.Kind = "sentinel-pair-beside-single"
+				s.Sent = []string{iso(y, 6, 10) + ":verd", iso(y, 6, 11) + ":verd", iso(y, 6, 10) + ":sun", iso(y+1, 4, 4) + ":verd", iso(y+1, 4, 5) + ":verd", iso(y+1, 4, 5) + ":sun",
+					iso(y+1, 9, 1) + ":sun", iso(y+1, 9, 2) + ":sun", iso(y+1, 9, 2) + ":verd"}
+			})
 			// missing values on the last simulated day (the series goes on) and on the first one
 			with(func(s *c04Spec) { s.Kind = "sentinel-on-last-simulated-day"; s.Sent = []string{end + ":sun", end + ":verd"} })
 			with(func(s *c04Spec) { s.Kind = "sentinel-on-last-simulated-day"; s.SimEnd = iso(y+1, 11, 15); s.Sent = []string{iso(y+1, 11, 15) + ":sun", iso(y+1, 11, 15) + ":verd"} })
@@ -460,6 +467,9 @@ func c04Run(raw json.RawMessage, c *mc.Ctx) {
 				p, n := t.AddDate(0, 0, -1), t.AddDate(0, 0, 1)
 				if !has(p) || !has(n) {
 					continue
+				}
+				if sent[p.Format("2006-01-02")+":"+col] || sent[n.Format("2006-01-02")+":"+col] {
+					continue // a hole of two or more days has no measured neighbours: not judged
 				}
 				want = (rec(p) + rec(n)) / 2
 				what = "sentinel-not-mean-of-adjacent-days"
